@@ -30,39 +30,66 @@
 (*        overriding element is the direct superclass                      *)
 (*   AllowModifyBusy      TRUE = regression variant: ModifyClass accepted  *)
 (*        on a class that has subclasses or instances                      *)
+(*   SigCheck             FALSE = the code as it is: an overriding method   *)
+(*        whose parameter list differs from the overridden one ends in     *)
+(*        AttributeError (CIMParameter has no `propagated`); TRUE =        *)
+(*        repaired: refused with CIM_ERR_INVALID_PARAMETER                 *)
 (***************************************************************************)
 EXTENDS ClassModel, FiniteSetsExt, SequencesExt
 
 CONSTANTS ClassLevelPropagate, ParamResolve, InitRestated, OriginFromSuper,
-          AllowModifyBusy
+          AllowModifyBusy, SigCheck
 
 E_INVALID_PARAMETER == 4
 E_CLASS_HAS_CHILDREN == 8
 E_CLASS_HAS_INSTANCES == 9
 
 AbsentEl == [present |-> FALSE, ver |-> "", origin |-> "", prop |-> FALSE,
-             quals |-> Q0, qnf |-> {}, xquals |-> Q0, xqnf |-> {}]
+             quals |-> Q0, qf |-> FL0, xquals |-> Q0, xqf |-> FL0,
+             pars |-> ""]
 
-(* _resolve_qualifiers(new, inherited, propagate=True), per qualifier name; *)
-(* "ERR" = CIMError(CIM_ERR_INVALID_PARAMETER) "Not overridable".           *)
-(* inhNf = inherited qualifiers whose tosubclass/overridable are None.      *)
-TsAttr(i, inhNf) == ToSub(i) /\ i \notin inhNf      \* `if inh_qual.tosubclass`
-ResolveQ(loc, inh, inhNf) ==
-  [i \in QI |->
-     IF inh[i] = "" THEN loc[i]
-     ELSE IF TsAttr(i, inhNf)
-     THEN IF Overridable(i)
-          THEN (IF loc[i] # "" THEN loc[i] ELSE inh[i])
-          ELSE (IF loc[i] = "" THEN inh[i]
-                ELSE IF loc[i] # inh[i] THEN "ERR" ELSE loc[i])
-     ELSE loc[i]]                 \* restricted: never copied to an override
-(* restated qualifiers that miss _init_qualifier (flavors stay None) *)
-ResolveNf(loc, inh, inhNf, via) ==
-  {i \in QI : /\ via = "api" /\ ~InitRestated /\ inh[i] # "" /\ loc[i] # ""
-              /\ (TsAttr(i, inhNf) => ~Overridable(i))}
+(* Flavor attributes <<tosubclass, overridable>> of a stored qualifier:     *)
+(* "T"/"R"/"N" and "E"/"D"/"N" (N = attribute None), NoFl = no qualifier.   *)
+DeclF(i) == << IF ToSub(i) THEN "T" ELSE "R", IF Overridable(i) THEN "E" ELSE "D" >>
+(* as the qualifier object arrives at the resolver: the MOF compiler fills  *)
+(* what the use does not give from the declaration (_build_flavors); a      *)
+(* CIMQualifier built by the client keeps None                              *)
+Arrive(lf, i, via) ==
+  IF via = "mof" THEN << IF lf[1] = "" THEN DeclF(i)[1] ELSE lf[1],
+                         IF lf[2] = "" THEN DeclF(i)[2] ELSE lf[2] >>
+  ELSE << IF lf[1] = "" THEN "N" ELSE lf[1], IF lf[2] = "" THEN "N" ELSE lf[2] >>
+InitF(a, i) ==                                      \* _init_qualifier
+  << IF a[1] = "N" THEN DeclF(i)[1] ELSE a[1],
+     IF a[2] = "N" THEN DeclF(i)[2] ELSE a[2] >>
+
+(* _resolve_qualifiers(new, inherited, propagate=True) for one qualifier    *)
+(* name: <<value, flavor attributes>>; "ERR" = CIMError(CIM_ERR_INVALID_    *)
+(* PARAMETER) "Not overridable" / "Restricted in super class".              *)
+Res1(lv, lf, iv, if, i, via) ==
+  LET arr == Arrive(lf, i, via)
+      ini == InitF(arr, i)
+      restated == IF InitRestated THEN ini ELSE arr IN
+  IF iv = "" THEN << lv, IF lv = "" THEN NoFl ELSE ini >>
+  ELSE IF if[1] = "T"                               \* `if inh_qual.tosubclass`
+  THEN IF if[2] = "E"                               \* `if inh_qual.overridable`
+       THEN (IF lv = "" THEN << iv, if >> ELSE << lv, ini >>)
+       ELSE (IF lv = "" THEN << iv, if >>
+             ELSE IF lv # iv THEN << "ERR", NoFl >>
+             ELSE << lv, restated >>)
+  ELSE IF lv = "" THEN << "", NoFl >>          \* restricted: never copied
+       ELSE IF if[2] \in {"E", "N"} THEN << lv, restated >>
+       ELSE << "ERR", NoFl >>
+ResolveQ(loc, lfl, inh, inhf, via) ==
+  [i \in QI |-> Res1(loc[i], lfl[i], inh[i], inhf[i], i, via)[1]]
+ResolveF(loc, lfl, inh, inhf, via) ==
+  [i \in QI |-> Res1(loc[i], lfl[i], inh[i], inhf[i], i, via)[2]]
+(* propagate=False: every local qualifier through _init_qualifier *)
+InitAll(loc, lfl, via) ==
+  [i \in QI |-> IF loc[i] = "" THEN NoFl ELSE InitF(Arrive(lfl[i], i, via), i)]
 HasErr(qm) == \E i \in QI : qm[i] = "ERR"
 
 RErr(code) == [ok |-> FALSE, code |-> code]
+E_PYERROR == 0 - 1
 
 (* _resolve_class on a deep copy of the new class; store: id -> resolved *)
 ImplResolve(store, name, super, d, via) ==
@@ -71,10 +98,10 @@ ImplResolve(store, name, super, d, via) ==
   LET hasSup == super # ""
       sup == store[super]
       inhE(e) == hasSup /\ sup.el[e].present
-      cq == IF ClassLevelPropagate /\ hasSup
-            THEN ResolveQ(d.cq, sup.cq, sup.cqnf) ELSE d.cq
-      cqnf == IF ClassLevelPropagate /\ hasSup
-              THEN ResolveNf(d.cq, sup.cq, sup.cqnf, via) ELSE {}
+      clp == ClassLevelPropagate /\ hasSup
+      cq == IF clp THEN ResolveQ(d.cq, d.cfl, sup.cq, sup.cqf, via) ELSE d.cq
+      cqf == IF clp THEN ResolveF(d.cq, d.cfl, sup.cq, sup.cqf, via)
+             ELSE InitAll(d.cq, d.cfl, via)
       one(e) ==
         IF d.el[e].present
         THEN IF inhE(e)
@@ -82,30 +109,40 @@ ImplResolve(store, name, super, d, via) ==
                    origin |-> IF OriginFromSuper THEN super
                               ELSE sup.el[e].origin,
                    prop |-> TRUE,
-                   quals |-> ResolveQ(d.el[e].quals, sup.el[e].quals,
-                                      sup.el[e].qnf),
-                   qnf |-> ResolveNf(d.el[e].quals, sup.el[e].quals,
-                                     sup.el[e].qnf, via),
+                   quals |-> ResolveQ(d.el[e].quals, d.el[e].fl,
+                                      sup.el[e].quals, sup.el[e].qf, via),
+                   qf |-> ResolveF(d.el[e].quals, d.el[e].fl,
+                                   sup.el[e].quals, sup.el[e].qf, via),
                    xquals |-> IF ParamResolve
-                              THEN ResolveQ(d.el[e].xquals, sup.el[e].xquals,
-                                            sup.el[e].xqnf)
+                              THEN ResolveQ(d.el[e].xquals, d.el[e].xfl,
+                                            sup.el[e].xquals, sup.el[e].xqf,
+                                            via)
                               ELSE d.el[e].xquals,
-                   xqnf |-> IF ParamResolve
-                            THEN ResolveNf(d.el[e].xquals, sup.el[e].xquals,
-                                           sup.el[e].xqnf, via)
-                            ELSE {}]
+                   xqf |-> IF ParamResolve
+                           THEN ResolveF(d.el[e].xquals, d.el[e].xfl,
+                                         sup.el[e].xquals, sup.el[e].xqf, via)
+                           ELSE InitAll(d.el[e].xquals, d.el[e].xfl, via),
+                   pars |-> d.el[e].pars]
              ELSE [present |-> TRUE, ver |-> name, origin |-> name,
-                   prop |-> FALSE, quals |-> d.el[e].quals, qnf |-> {},
-                   xquals |-> d.el[e].xquals, xqnf |-> {}]
+                   prop |-> FALSE, quals |-> d.el[e].quals,
+                   qf |-> InitAll(d.el[e].quals, d.el[e].fl, via),
+                   xquals |-> d.el[e].xquals,
+                   xqf |-> InitAll(d.el[e].xquals, d.el[e].xfl, via),
+                   pars |-> d.el[e].pars]
         ELSE IF inhE(e) THEN [sup.el[e] EXCEPT !.prop = TRUE]
         ELSE AbsentEl
       el == [e \in Elems |-> one(e)] IN
   IF \E e \in Elems : d.el[e].present /\ inhE(e) /\ ~d.el[e].ovr
   THEN RErr(E_INVALID_PARAMETER)         \* "duplicates ... without override"
-  ELSE IF HasErr(cq) \/ \E e \in Elems : HasErr(el[e].quals) \/ HasErr(el[e].xquals)
+  ELSE IF HasErr(cq) \/ \E e \in Elems : HasErr(el[e].quals)
+  THEN RErr(E_INVALID_PARAMETER)
+  ELSE IF d.el["m"].present /\ inhE("m") /\ d.el["m"].pars # sup.el["m"].pars
+  THEN (IF SigCheck THEN RErr(E_INVALID_PARAMETER)
+        ELSE RErr(E_PYERROR))    \* AttributeError: CIMParameter.propagated
+  ELSE IF \E e \in Elems : HasErr(el[e].xquals)
   THEN RErr(E_INVALID_PARAMETER)
   ELSE [ok |-> TRUE, code |-> 0,
-        cls |-> [super |-> super, cq |-> cq, cqnf |-> cqnf, el |-> el]]
+        cls |-> [super |-> super, cq |-> cq, cqf |-> cqf, el |-> el]]
 
 NQ(qm) == Cardinality({i \in QI : qm[i] # ""})
 
@@ -120,15 +157,16 @@ ImplGet(store, c, lo, iq, ico, hp, pl) ==
                     \/ (hp /\ e # "m" /\ e \notin Rng(pl)) IN
         IF gone
         THEN [present |-> FALSE, ver |-> "", origin |-> "", prop |-> "N",
-              quals |-> Q0, nq |-> 0, hasx |-> FALSE, xquals |-> Q0,
-              nxq |-> 0, odd |-> ""]
+              quals |-> Q0, nq |-> 0, hasx |-> FALSE, pars |-> "",
+              xquals |-> Q0, nxq |-> 0, odd |-> ""]
         ELSE [present |-> TRUE,
               ver |-> IF e \in {"p", "q"} \/ keepq THEN x.ver ELSE "",
               origin |-> IF ico = "T" THEN x.origin ELSE "",
               prop |-> IF x.prop THEN "T" ELSE "F",
               quals |-> IF keepq THEN x.quals ELSE Q0,
               nq |-> IF keepq THEN NQ(x.quals) ELSE 0,
-              hasx |-> e = "m",
+              hasx |-> e = "m" /\ HasX(x.pars),
+              pars |-> IF e = "m" THEN x.pars ELSE "",
               xquals |-> IF keepq THEN x.xquals ELSE Q0,
               nxq |-> IF keepq THEN NQ(x.xquals) ELSE 0,
               odd |-> ""] IN
